@@ -25,6 +25,9 @@ type C18Case struct {
 	WS   *gen.Workspace `json:"ws"`
 	Root bool           `json:"root"`
 	From int            `json:"from"`
+	// Before: files opened (text as on disk) and analysed before the examined one: what the server
+	// learnt from them must not count for a document they have nothing to do with
+	Before []int `json:"before,omitempty"`
 }
 
 var stdCategories = map[string]bool{"assets": true, "liabilities": true, "equity": true, "expenses": true, "revenues": true, "income": true}
@@ -68,10 +71,19 @@ func acctCovered(a string, decl map[string]bool) bool {
 	return false
 }
 
-func c18Diags(ws *gen.Workspace, root bool, from int, init map[string]any) ([]protocol.Diagnostic, *wsEnv, error) {
+func c18Diags(ws *gen.Workspace, root bool, from int, init map[string]any, before ...int) ([]protocol.Diagnostic, *wsEnv, error) {
 	env, err := newWSEnv(ws, root, lspx.Options{InitOptions: init})
 	if err != nil {
 		return nil, nil, err
+	}
+	for _, fi := range before {
+		if fi == from || fi < 0 || fi >= len(env.URIs) {
+			continue
+		}
+		if _, err := env.H.OpenAndWait(env.URIs[fi], env.Disk[fi].Text); err != nil {
+			env.Cleanup()
+			return nil, nil, err
+		}
 	}
 	d, err := env.H.OpenAndWait(env.URIs[from], env.Disk[from].Text)
 	if err != nil {
@@ -99,7 +111,7 @@ func diagKeys(ds []protocol.Diagnostic, drop map[string]bool) []string {
 
 func c18Check(c *C18Case) (ds []ev.Discrepancy, stats map[string]int) {
 	stats = map[string]int{}
-	all, env, err := c18Diags(c.WS, c.Root, c.From, nil)
+	all, env, err := c18Diags(c.WS, c.Root, c.From, nil, c.Before...)
 	if err != nil {
 		return []ev.Discrepancy{ev.D("c18.harness", "%v", err)}, stats
 	}
@@ -256,7 +268,7 @@ func c18Check(c *C18Case) (ds []ev.Discrepancy, stats map[string]int) {
 				init["diagnostics."+k] = v
 			}
 		}
-		got, env2, err := c18Diags(c.WS, c.Root, c.From, init)
+		got, env2, err := c18Diags(c.WS, c.Root, c.From, init, c.Before...)
 		if err != nil {
 			return append(ds, ev.D("c18.harness", "%v", err)), stats
 		}
@@ -294,6 +306,13 @@ func TestC18(t *testing.T) {
 		}
 		ws := gen.GenWorkspace(t, p, pools, c18Opts)
 		c := &C18Case{WS: ws, Root: rapid.Bool().Draw(t, "root"), From: rapid.IntRange(0, len(ws.Files)-1).Draw(t, "from")}
+		if len(ws.Files) > 1 && rapid.Bool().Draw(t, "openbefore") {
+			for fi := range ws.Files {
+				if rapid.Bool().Draw(t, "before") {
+					c.Before = append(c.Before, fi)
+				}
+			}
+		}
 		// the layout where the three sources of declarations differ most: a current file beside the
 		// root journal's tree that has an include tree of its own
 		underRoot := map[int]bool{}
@@ -309,9 +328,28 @@ func TestC18(t *testing.T) {
 		if len(beside) > 0 && rapid.Bool().Draw(t, "frombeside") {
 			c.From = rapid.SampledFrom(beside).Draw(t, "besidefile")
 		}
+		if len(ws.Files) == 3 && rapid.IntRange(0, 3).Draw(t, "unrelated") == 0 {
+			// three files that have nothing to do with each other, the first the workspace's root journal:
+			// one of the other two is analysed, then the other one examined. What the first declares is
+			// no business of the second.
+			for fi := range ws.Files {
+				var es []m.Entry
+				for _, e := range ws.Files[fi].Journal.Entries {
+					if e.Dir == nil || e.Dir.Kind != "include" {
+						es = append(es, e)
+					}
+				}
+				ws.Files[fi].Journal.Entries = es
+				ws.Includes[fi] = nil
+			}
+			c.Root = true
+			c.From = rapid.IntRange(1, 2).Draw(t, "unrelatedfrom")
+			c.Before = []int{3 - c.From}
+			underRoot = map[int]bool{0: true}
+		}
 		ds, st := c18Check(c)
 		nt := st["expected_warnings"] > 0 && st["declaration_outside_current_file"] > 0
-		cls := []string{fmt.Sprintf("root:%v", c.Root), fmt.Sprintf("files:%d", len(ws.Files)), fmt.Sprintf("current-beside-root-with-own-tree:%v", !underRoot[c.From] && len(ws.Reachable(c.From)) > 1)}
+		cls := []string{fmt.Sprintf("root:%v", c.Root), fmt.Sprintf("files:%d", len(ws.Files)), fmt.Sprintf("current-beside-root-with-own-tree:%v", !underRoot[c.From] && len(ws.Reachable(c.From)) > 1), fmt.Sprintf("other-documents-analysed-before:%v", len(c.Before) > 0)}
 		if st["expected_warnings"] > 0 {
 			cls = append(cls, "has-expected-warnings")
 		}
